@@ -208,6 +208,311 @@ def has_escaping_jump(st):
     return rec(st, isinstance(st, (ast.For, ast.AsyncFor, ast.While)))
 
 
+def _is_logger_call_stmt(st):
+    """``<...>.logger.<level>(...)`` / ``logger.<level>(...)`` as an expression statement."""
+    if not isinstance(st, ast.Expr):
+        return False
+    v = st.value
+    if isinstance(v, ast.Await):
+        v = v.value
+    if not isinstance(v, ast.Call) or not isinstance(v.func, ast.Attribute):
+        return False
+    f = v.func.value
+    return (isinstance(f, ast.Attribute) and f.attr == 'logger') or \
+        (isinstance(f, ast.Name) and f.id == 'logger')
+
+
+def _own_walk(node):
+    """ast.walk that does not enter nested function / lambda / class bodies."""
+    stack = [node]
+    while stack:
+        n = stack.pop()
+        yield n
+        for ch in ast.iter_child_nodes(n):
+            if isinstance(ch, (ast.FunctionDef, ast.AsyncFunctionDef, ast.ClassDef, ast.Lambda)):
+                continue
+            stack.append(ch)
+
+
+def log_only_locals(func_node):
+    """Local names whose every read is an argument of a logger call (directly, or through
+    another such local).  Statements that only compute them carry no protocol fact; the
+    builder keeps them as one node so that the way a log message is assembled does not
+    multiply paths (slicing)."""
+    params = {a.arg for a in ast.walk(func_node.args) if isinstance(a, ast.arg)}
+    stores = {}
+    for st in func_node.body:
+        for n in _own_walk(st):
+            if isinstance(n, ast.Name) and isinstance(n.ctx, ast.Store) and n.id not in params:
+                stores.setdefault(n.id, 0)
+    # statements (simple ones) by the names they read
+    cand = set(stores)
+    # names bound other than by a plain ``name = expr`` statement are not candidates
+    for st in func_node.body:
+        for n in _own_walk(st):
+            if isinstance(n, (ast.For, ast.AsyncFor, ast.With, ast.AsyncWith, ast.ExceptHandler,
+                              ast.NamedExpr, ast.AugAssign, ast.comprehension, ast.Global,
+                              ast.Nonlocal, ast.Import, ast.ImportFrom, ast.Delete)):
+                for m in ast.walk(n.target if hasattr(n, 'target') else n):
+                    if isinstance(m, ast.Name) and isinstance(m.ctx, (ast.Store, ast.Del)):
+                        cand.discard(m.id)
+                if isinstance(n, ast.ExceptHandler) and n.name:
+                    cand.discard(n.name)
+                if isinstance(n, (ast.Global, ast.Nonlocal)):
+                    cand -= set(n.names)
+            if isinstance(n, ast.Assign):
+                for t in n.targets:
+                    if not isinstance(t, ast.Name):
+                        for m in ast.walk(t):
+                            if isinstance(m, ast.Name) and isinstance(m.ctx, ast.Store):
+                                cand.discard(m.id)
+    # nested functions reading a name keep it live
+    for n in ast.walk(func_node):
+        if isinstance(n, (ast.FunctionDef, ast.AsyncFunctionDef, ast.Lambda)) and \
+                n is not func_node:
+            for m in ast.walk(n):
+                if isinstance(m, ast.Name):
+                    cand.discard(m.id)
+    changed = True
+    while changed:
+        changed = False
+        uses = {}
+
+        def visit(st):
+            # returns nothing; records for each Load of a candidate whether it is log-only
+            if isinstance(st, (ast.FunctionDef, ast.AsyncFunctionDef, ast.ClassDef)):
+                return
+            simple_ok = _is_logger_call_stmt(st) or (
+                isinstance(st, ast.Assign) and all(
+                    isinstance(t, ast.Name) and t.id in cand for t in st.targets))
+            if isinstance(st, (ast.If, ast.While, ast.For, ast.AsyncFor, ast.Try, ast.With,
+                               ast.AsyncWith)):
+                for f, v in ast.iter_fields(st):
+                    if isinstance(v, list) and v and isinstance(v[0], ast.stmt):
+                        for s2 in v:
+                            visit(s2)
+                    elif isinstance(v, list) and v and isinstance(v[0], ast.ExceptHandler):
+                        for h in v:
+                            for s2 in h.body:
+                                visit(s2)
+                    elif isinstance(v, list):
+                        for x in v:
+                            if isinstance(x, ast.AST):
+                                mark(x, False)
+                    elif isinstance(v, ast.AST):
+                        mark(v, False)
+                return
+            mark(st, simple_ok)
+
+        def mark(node, ok):
+            for m in _own_walk(node):
+                if isinstance(m, ast.Name) and isinstance(m.ctx, ast.Load) and m.id in cand:
+                    uses.setdefault(m.id, []).append(ok)
+        for st in func_node.body:
+            visit(st)
+        for name in list(cand):
+            if not uses.get(name) or not all(uses[name]):
+                cand.discard(name)
+                changed = True
+    return cand
+
+
+def _first_ifexp(st):
+    """First conditional expression of a simple statement in evaluation order (not inside a
+    lambda or comprehension)."""
+    def rec(n):
+        if isinstance(n, (ast.Lambda, ast.ListComp, ast.SetComp, ast.DictComp,
+                          ast.GeneratorExp)):
+            return None
+        if isinstance(n, ast.IfExp):
+            return n
+        for ch in ast.iter_child_nodes(n):
+            r = rec(ch)
+            if r is not None:
+                return r
+        return None
+    return rec(st)
+
+
+class _Replace(ast.NodeTransformer):
+    def __init__(self, old, new):
+        self.old = old
+        self.new = new
+
+    def visit(self, node):
+        if node is self.old:
+            return self.new
+        return self.generic_visit(node)
+
+
+def _with_branch(st, ifexp, branch):
+    import copy
+    memo = {id(ifexp): ifexp}
+    st2 = copy.deepcopy(st, memo)
+    return _Replace(ifexp, branch).visit(st2)
+
+
+def canon_while(st):
+    """``while True: if C: break; <rest>`` is ``while not C: <rest>`` (the loop has no else
+    clause): the normal form is the loop with the condition in its header."""
+    if isinstance(st, ast.While) and isinstance(st.test, ast.Constant) and \
+            st.test.value is True and not st.orelse and len(st.body) > 1:
+        first = st.body[0]
+        if isinstance(first, ast.If) and not first.orelse and len(first.body) == 1 and \
+                isinstance(first.body[0], ast.Break):
+            test = ast.UnaryOp(ast.Not(), first.test)
+            ast.copy_location(test, first.test)
+            w = ast.While(test=test, body=st.body[1:], orelse=[])
+            ast.copy_location(w, st)
+            return w
+    return st
+
+
+class _SubstIndex(ast.NodeTransformer):
+    def __init__(self, seq_txt, idx, elem):
+        self.seq_txt, self.idx, self.elem = seq_txt, idx, elem
+        self.other_use = False
+
+    def visit_Subscript(self, node):
+        if isinstance(node.slice, ast.Name) and node.slice.id == self.idx and \
+                isinstance(node.ctx, ast.Load) and ast.unparse(node.value) == self.seq_txt:
+            return ast.copy_location(ast.Name(self.elem, ast.Load()), node)
+        return self.generic_visit(node)
+
+    def visit_Name(self, node):
+        if node.id == self.idx:
+            self.other_use = True
+        return node
+
+
+def _fold_index_loops(stmts, func):
+    """``i = 0`` directly followed by ``while i < len(X) [and C]: <body using X[i]>; i += 1``
+    is ``for e in X: [if not C: break]; <body using e>`` when i is used for nothing else, X is
+    not rebound in the body and the body has no ``continue``.  The for loop is the normal
+    form."""
+    import copy
+    out = []
+    k = 0
+    while k < len(stmts):
+        st = stmts[k]
+        nxt = stmts[k + 1] if k + 1 < len(stmts) else None
+        rep = None
+        if isinstance(st, ast.Assign) and len(st.targets) == 1 and \
+                isinstance(st.targets[0], ast.Name) and isinstance(st.value, ast.Constant) and \
+                st.value.value == 0 and type(st.value.value) is int and \
+                isinstance(nxt, ast.While) and not nxt.orelse and len(nxt.body) >= 2:
+            i = st.targets[0].id
+            test = nxt.test
+            rest = []
+            if isinstance(test, ast.BoolOp) and isinstance(test.op, ast.And):
+                test, rest = test.values[0], list(test.values[1:])
+            last = nxt.body[-1]
+            ok = isinstance(test, ast.Compare) and len(test.ops) == 1 and \
+                isinstance(test.ops[0], ast.Lt) and isinstance(test.left, ast.Name) and \
+                test.left.id == i and isinstance(test.comparators[0], ast.Call) and \
+                isinstance(test.comparators[0].func, ast.Name) and \
+                test.comparators[0].func.id == 'len' and len(test.comparators[0].args) == 1 and \
+                isinstance(last, ast.AugAssign) and isinstance(last.op, ast.Add) and \
+                isinstance(last.target, ast.Name) and last.target.id == i and \
+                isinstance(last.value, ast.Constant) and last.value.value == 1
+            if ok:
+                seq = test.comparators[0].args[0]
+                seq_txt = ast.unparse(seq)
+                body = nxt.body[:-1]
+                base = seq
+                while isinstance(base, ast.Attribute):
+                    base = base.value
+                ok = isinstance(base, ast.Name)
+                for b in body:
+                    for m in ast.walk(b):
+                        if isinstance(m, ast.Continue):
+                            ok = False
+                        if isinstance(m, ast.Name) and isinstance(m.ctx, (ast.Store, ast.Del)) \
+                                and m.id in (i, getattr(base, 'id', None)):
+                            ok = False
+                # the index must not be read anywhere but in this loop
+                inside = {id(m) for m in ast.walk(nxt)}
+                for m in ast.walk(func):
+                    if isinstance(m, ast.Name) and m.id == i and id(m) not in inside and \
+                            m is not st.targets[0]:
+                        ok = False
+            if ok:
+                elem = '_e_%s' % i
+                sub = _SubstIndex(seq_txt, i, elem)
+                nb = [sub.visit(copy.deepcopy(b)) for b in body]
+                nrest = [sub.visit(copy.deepcopy(r)) for r in rest]
+                if not sub.other_use:
+                    pre = []
+                    if nrest:
+                        cond = nrest[0] if len(nrest) == 1 else ast.BoolOp(ast.And(), nrest)
+                        brk = ast.If(test=ast.UnaryOp(ast.Not(), cond), body=[ast.Break()],
+                                     orelse=[])
+                        pre = [brk]
+                    rep = ast.For(target=ast.Name(elem, ast.Store()), iter=seq,
+                                  body=pre + nb, orelse=[], type_comment=None)
+                    ast.copy_location(rep, nxt)
+                    for x in pre:
+                        ast.copy_location(x, nxt)
+                        for m in ast.walk(x):
+                            if not hasattr(m, 'lineno'):
+                                ast.copy_location(m, nxt)
+                    ast.fix_missing_locations(rep)
+        if rep is not None:
+            out.append(rep)
+            k += 2
+        else:
+            out.append(st)
+            k += 1
+    return out
+
+
+def _fold_loop_appends(stmts):
+    """``x = []`` directly followed by ``for T in IT: x.append(E)`` (optionally under one
+    ``if C:``) is the list comprehension ``x = [E for T in IT if C]``: same elements, same
+    order, same calls.  The comprehension is the normal form (one binding, no loop paths)."""
+    out = []
+    i = 0
+    while i < len(stmts):
+        st = stmts[i]
+        nxt = stmts[i + 1] if i + 1 < len(stmts) else None
+        comp = None
+        if isinstance(st, ast.Assign) and len(st.targets) == 1 and \
+                isinstance(st.targets[0], ast.Name) and isinstance(st.value, ast.List) and \
+                not st.value.elts and isinstance(nxt, ast.For) and not nxt.orelse and \
+                len(nxt.body) == 1:
+            x = st.targets[0].id
+            body = nxt.body[0]
+            conds = []
+            if isinstance(body, ast.If) and not body.orelse and len(body.body) == 1:
+                conds = [body.test]
+                body = body.body[0]
+            if isinstance(body, ast.Expr) and isinstance(body.value, ast.Call) and \
+                    isinstance(body.value.func, ast.Attribute) and \
+                    body.value.func.attr == 'append' and \
+                    isinstance(body.value.func.value, ast.Name) and \
+                    body.value.func.value.id == x and len(body.value.args) == 1 and \
+                    not body.value.keywords:
+                elt = body.value.args[0]
+                uses_x = any(isinstance(m, ast.Name) and m.id == x
+                             for part in [elt, nxt.iter] + conds for m in ast.walk(part))
+                has_await = any(isinstance(m, ast.Await)
+                                for part in [elt] + conds for m in ast.walk(part))
+                if not uses_x and not has_await:
+                    lc = ast.ListComp(elt=elt, generators=[ast.comprehension(
+                        target=nxt.target, iter=nxt.iter, ifs=conds, is_async=0)])
+                    ast.copy_location(lc, st.value)
+                    comp = ast.Assign(targets=st.targets, value=lc)
+                    ast.copy_location(comp, st)
+                    ast.fix_missing_locations(comp)
+        if comp is not None:
+            out.append(comp)
+            i += 2
+        else:
+            out.append(st)
+            i += 1
+    return out
+
+
 class Builder:
     def __init__(self, func_node, exc_parents=None, opaque=None):
         """exc_parents: dict class name -> parent class name (exception hierarchy).
@@ -217,6 +522,17 @@ class Builder:
         self.exc_parents = exc_parents or {}
         self.opaque = opaque
         self.frames = []
+        self.log_only = log_only_locals(func_node) if isinstance(
+            func_node, (ast.FunctionDef, ast.AsyncFunctionDef)) else set()
+
+    def _log_only_stmt(self, st):
+        """A statement (possibly an if/else ladder) that does nothing but bind log-only
+        locals."""
+        if isinstance(st, ast.Assign):
+            return all(isinstance(t, ast.Name) and t.id in self.log_only for t in st.targets)
+        if isinstance(st, ast.If):
+            return bool(st.body) and all(self._log_only_stmt(x) for x in st.body + st.orelse)
+        return isinstance(st, ast.Pass)
 
     # -- exception class matching -----------------------------------------
     def _is_subclass(self, name, base):
@@ -365,6 +681,7 @@ class Builder:
         return n
 
     def _block(self, stmts, preds):
+        stmts = _fold_index_loops(_fold_loop_appends(stmts), self.cfg.func)
         for st in stmts:
             if not preds:
                 break       # unreachable code after return/raise/break
@@ -373,6 +690,22 @@ class Builder:
 
     def _stmt(self, st, preds):
         c = self.cfg
+        if self.log_only and isinstance(st, ast.If) and self._log_only_stmt(st):
+            n = self._simple('opaque', st, preds)
+            self._route_exc(n)
+            return [(n, 'next')]
+        if isinstance(st, (ast.Assign, ast.AugAssign, ast.AnnAssign, ast.Return, ast.Expr,
+                           ast.Raise)) and not _is_logger_call_stmt(st) and \
+                not (isinstance(st, ast.Assign) and self._log_only_stmt(st)):
+            ie = _first_ifexp(st)
+            if ie is not None:
+                # ``x = a if c else b`` is the statement ``if c: x = a else: x = b``
+                body = _with_branch(st, ie, ie.body)
+                orelse = _with_branch(st, ie, ie.orelse)
+                low = ast.If(test=ie.test, body=[body], orelse=[orelse])
+                ast.copy_location(low, st)
+                low._lowered_from = st
+                return self._stmt(low, preds)
         if self.opaque is not None and isinstance(
                 st, (ast.If, ast.While, ast.For, ast.AsyncFor, ast.Try, ast.With,
                      ast.AsyncWith)) and self.opaque(st) and not has_escaping_jump(st):
@@ -387,6 +720,7 @@ class Builder:
             outs2 = self._block(st.orelse, f) if st.orelse else f
             return outs + outs2
         if isinstance(st, ast.While):
+            st = canon_while(st)
             head = c.new('join', None, st)
             head.lineno = st.lineno
             head.origin = 'loophead'
